@@ -11,6 +11,7 @@ Level A clauses (spec/TraceIntervals.tla)."""
 import glob
 import json
 import os
+import time
 from concurrent.futures import ThreadPoolExecutor
 from typing import Dict, List
 
@@ -54,6 +55,8 @@ def generate_family(fam: str, cfg: str, workers: int, dest: str, timeout: int) -
 def run(prop: str, tier: str, replay: str = None) -> int:
     rep = Report(prop, tier)
     wd = tlc.workdir(prop)
+    phases = {}
+    t0 = time.time()
     try:
         cases = os.path.join(wd, "cases.ndjson")
         n_cases = 0
@@ -90,10 +93,16 @@ def run(prop: str, tier: str, replay: str = None) -> int:
             rep.extra["layouts_per_family"] = per_family
             rep.extra["generated_cases"] = n_cases
             rep.exhaustive = True
+        phases["model_check_and_generate"] = round(time.time() - t0, 1)
+        t0 = time.time()
         shards = core.split_file(cases, 16 if n_cases > 64 else 1, wd, "cases")
         traces = core.run_module_parallel("harness.intervals.runner", shards, wd, "iv")
+        phases["run_real_code"] = round(time.time() - t0, 1)
+        t0 = time.time()
         verdicts = tlc.validate_sharded("TraceIntervals.tla", "TraceIntervals.cfg", traces,
                                         jobs=16, timeout=2400)
+        phases["tlc_judges_traces"] = round(time.time() - t0, 1)
+        rep.extra["phase_wall_s"] = phases
         case_line: Dict[str, str] = {}
         with open(cases) as f:
             for line in f:
